@@ -70,6 +70,12 @@ func mkQuery(id uint16, name string, edns bool) []byte {
 	m.Id = id
 	if edns {
 		m.SetEdns0(1232, false)
+		if id%5 == 0 {
+			// an EDNS option the wire-born parser does not admit: the packet takes the
+			// decoded entry (pooled chain from Pipeline.chainPool, pooled edns writer)
+			o := m.IsEdns0()
+			o.Option = append(o.Option, &dns.EDNS0_LOCAL{Code: 65001, Data: []byte{byte(id), byte(id >> 8)}})
+		}
 	}
 	b, _ := m.Pack()
 	return b
